@@ -160,7 +160,8 @@ func HarnessC15Block() {
 		defer cancel()
 	}
 	var err error
-	op := vhChoice("op", 9)
+	firstDone := false
+	op := vhChoice("op", 12)
 	switch op {
 	case 0: // in-process send, peer not reading, its queue is full
 		cl, _ := newInProcessTransportPair("a", 1)
@@ -197,6 +198,32 @@ func HarnessC15Block() {
 		cl, _ := newInProcessTransportPair("a", 1)
 		c := NewClientChannel(cl, 1)
 		_, err = c.EstablishSession(ctx, NoneCompressionSelector, NoneEncryptionSelector, Identity{"a", "b"}, GuestAuthenticator, "i")
+	case 9: // channel send while another sender holds the transport (its write is stuck)
+		cl, _ := newInProcessTransportPair("a", 1)
+		cl.remote.envChan <- vhEnvelopeOfKind(0, "fill")
+		c := newChannel(cl, 1)
+		c.state = SessionStateEstablished
+		go func() {
+			long, stop := context.WithTimeout(context.Background(), 10*time.Second)
+			defer stop()
+			_ = c.SendMessage(long, vhEnvelopeOfKind(0, "first").(*Message))
+			firstDone = true
+		}()
+		vQuiesce()
+		err = c.SendMessage(ctx, vhEnvelopeOfKind(0, "m").(*Message))
+	case 10: // ending the session while a sender holds the transport
+		cl, _ := newInProcessTransportPair("a", 1)
+		cl.remote.envChan <- vhEnvelopeOfKind(0, "fill")
+		sc := NewServerChannel(cl, 1, Node{Identity{"postmaster", "srv"}, "s1"}, vhSID)
+		sc.state = SessionStateEstablished
+		go func() {
+			long, stop := context.WithTimeout(context.Background(), 10*time.Second)
+			defer stop()
+			_ = sc.SendMessage(long, vhEnvelopeOfKind(0, "first").(*Message))
+			firstDone = true
+		}()
+		vQuiesce()
+		err = sc.FinishSession(ctx)
 	default: // TCP listener accept, nobody connects
 		l := &tcpTransportListener{}
 		l.listener = vhNetListener{}
@@ -205,6 +232,10 @@ func HarnessC15Block() {
 		_, err = l.Accept(ctx)
 	}
 	vReach("c15:operation-returned")
+	if op == 9 || op == 10 {
+		// ... and does so when its own context ends, not when the sender in front of it gives up (10 s)
+		vAssert(!firstDone, "c15:waiting-for-the-turn-ends-with-the-callers-context")
+	}
 	vAssert(err != nil, "c15:operation-fails-once-the-context-ended")
 	if err != nil {
 		vAssert(errors.Is(err, ctx.Err()), "c15:error-wraps-the-contexts-error")
